@@ -1116,7 +1116,7 @@ Example T02s_escape_old_rule_partial_example :
   ies_old_fires body = true /\ se_none_of se_missing_list body = true /\ ies_fires (fun _ => None) body = true.
 Proof. exact ies_old_partial_example. Qed.
 
-(* deinterpolate_logging_args after 3e858c8 *)
+(* deinterpolate_logging_args after a03c366 *)
 Theorem T02s_logging_rule_partial :
   forall objs ps msg args enabled,
   lg_rule ps = Some (msg, args) -> lg_benign objs ps = true ->
@@ -1158,7 +1158,7 @@ Theorem T02s_logging_nospec_refuted :
 Proof. exact lg_nospec_refuted. Qed.
 Print Assumptions T02s_logging_nospec_refuted.
 
-(* the rule before 3e858c8: str.format placeholders handed to the logging module; the line is lost *)
+(* the rule before a03c366: str.format placeholders handed to the logging module; the line is lost *)
 Theorem T02s_logging_old_rule_refuted :
   exists objs ps msg args,
   lg_benign objs ps = true /\ lg_rule_old ps = Some (msg, args) /\
